@@ -79,6 +79,7 @@ impl Stats {
     pub fn fail(&mut self, what: String, input: String) { self.fail_class("", what, input) }
     /// class = id of a known-finding class the input provably belongs to ("" = none)
     pub fn fail_class(&mut self, class: &str, what: String, input: String) {
+        if self.failures.iter().any(|f| f.2 == input && f.0 == class) { return; }
         self.failures_total += 1;
         *self.fail_classes.entry(class.to_string()).or_insert(0) += 1;
         let same = self.failures.iter().filter(|f| f.0 == class).count();
